@@ -9,6 +9,8 @@ real code).  They use the model only for its vocabulary (`Ty`, `Val`, `lt`, `St`
 namespace Cppcms.C19.Spec
 open Cppcms Cppcms.C19
 
+variable [JsonCodec]
+
 /-- every recorded read `(offset,length)` lies inside a buffer of `n` bytes -/
 def ReadsWithin (n : Nat) (reads : List (Nat × Nat)) : Prop :=
   ∀ iv ∈ reads, iv.1 + iv.2 ≤ n
@@ -36,6 +38,7 @@ def wf : (ty : Ty) → Val ty → Bool
   | .mset t, v => v.all (wf t) && pairwiseB (fun x y => !lt t y x) v
   | .mmap k w, v => v.all (fun x => wf k x.1 && wf w x.2) && pairwiseB (fun x y => !lt k y.1 x.1) v
   | .arr t n, v => v.length == n && v.all (wf t)
+  | .json, _ => true
 
 /-- the guard under which `write_chunk`'s `uint32_t size = len` and the `size_t` element counts do
 not truncate: every chunk payload is shorter than 2^32 bytes, every count below 2^64 -/
@@ -54,6 +57,29 @@ def sizesFit : (ty : Ty) → Val ty → Bool
   | .mset t, v => decide (v.length < 2 ^ 64) && v.all (sizesFit t)
   | .mmap k w, v => decide (v.length < 2 ^ 64) && v.all (fun x => sizesFit k x.1 && sizesFit w x.2)
   | .arr t _, v => v.all (sizesFit t)
+  | .json, v =>
+    match JsonCodec.write v with
+    | some text => decide (text.length < 2 ^ 32)
+    | none => false
+
+def allP {α : Type} (P : α → Prop) (l : List α) : Prop := ∀ x ∈ l, P x
+def optP {α : Type} (P : α → Prop) (o : Option α) : Prop := ∀ x, o = some x → P x
+
+/-- the law of the external JSON codec that the round trip of a value needs: every `json::value` inside it can
+be written, and reading the written text gives the same value back (C11's write/parse round trip) -/
+def jsonRT : (ty : Ty) → Val ty → Prop
+  | .pod _, _ => True
+  | .str, _ => True
+  | .vecPod _, _ => True
+  | .seq t, v => allP (jsonRT t) v
+  | .set t, v => allP (jsonRT t) v
+  | .map k w, v => allP (fun x => jsonRT k x.1 ∧ jsonRT w x.2) v
+  | .pair a b, v => jsonRT a v.1 ∧ jsonRT b v.2
+  | .ptr t, v => optP (jsonRT t) v
+  | .mset t, v => allP (jsonRT t) v
+  | .mmap k w, v => allP (fun x => jsonRT k x.1 ∧ jsonRT w x.2) v
+  | .arr t _, v => allP (jsonRT t) v
+  | .json, v => ∃ text, JsonCodec.write v = some text ∧ JsonCodec.read text = some v
 
 /-- types whose archives are canonical (no set/map re-ordering, no pointer flag): a successful load
 must have consumed exactly `save` of the value it returned -/
@@ -69,6 +95,7 @@ def flat : Ty → Bool
   | .mset _ => false
   | .mmap _ _ => false
   | .arr t _ => flat t
+  | .json => false
 
 /-- Judge for one successful load of the real code: archive `b`, returned value `v`, final `ptr_ = p`.
 The cursor stayed inside the archive, the value is one the C++ type can hold, and for canonical
